@@ -510,6 +510,17 @@ def _project(value, path):
         if value[0] in ('tuple', 'list') and isinstance(i, int) and i < len(value[1]) and \
                 not any(x[0] == 'starred' for x in value[1]):
             value = value[1][i]
+        elif value[0] == 'comp' and value[1] in ('list', 'gen') and isinstance(i, int) and \
+                len(value[3]) == 1 and not value[3][0][1] and \
+                value[3][0][0][0] in ('tuple', 'list') and i < len(value[3][0][0][1]) and \
+                not any(x[0] == 'starred' for x in value[3][0][0][1]):
+            # [f(k) for k in (a, b)][i]  ->  f(i-th item)
+            it = value[3][0][0]
+            mapping = {}
+            for s in subterms(value[2]):
+                if s[0] == 'elem' and s[1] == it:
+                    mapping[s] = it[1][i]
+            value = subst(value[2], mapping)
         else:
             value = ('item', value, i)
     return value
